@@ -171,6 +171,8 @@ def rule_fwd_array(rows, prop):
             if not first.startswith("%") or first[1:] not in locs or (view_local and view_local != first[1:]):
                 ok_ret = False; why = "eval() is not applied to the local view: " + a[0]; break
             view_local = first[1:]
+        if not ok_ret or view_local is None:
+            findings.append(finding("R-FWD.array.eval", prop, r, "return", why, rets[0].get("line") if rets else None)); continue
         # (2) the local is view::<own name>(leading params in order)
         init = locs[view_local]
         pc = parse_call(init)
@@ -356,13 +358,14 @@ def single_def_locals(r):
 def rule_ufop(rows, prop):
     table = load_table("ufunc_table.json")["ops"]
     skip = load_table("ufunc_table.json")["not_covered"]
+    gtab = set(k.split("::")[0] for k in load_table("ufunc_table.json").get("guarded_ops", {}))
     findings, samples, seen = [], [], {}
     for r in rows:
         if "fn" not in r or not r["fn"].endswith("operator()") or "to_string" in r["fn"]:
             continue
         name = op_name_of(r["fn"])
-        if not name or name in skip:
-            continue
+        if not name or name in skip or name in gtab:
+            continue   # multi-statement ops are decided on their instantiation (R-UFOP.guarded)
         locs, assigned = single_def_locals(r)
         rets = [subst_locals(f["a"], locs) for f in r["facts"] if f["k"] == "return"]
         params = [p["name"] for p in r["params"]]
@@ -445,6 +448,61 @@ def rule_ufwd(rows, prop):
     return findings, n, samples
 
 
+def guarded_effects(r):
+    """ordered canonical effect list of an instantiated function: locals, guarded assignments, guarded returns"""
+    params = [p_["name"] for p_ in r["params"]]
+    lnames = []
+    for f in r["facts"]:
+        if f["k"] == "local" and f["a"] not in lnames:
+            lnames.append(f["a"])
+    def canon(e):
+        for i, pn in enumerate(params):
+            e = re.sub(r"\$" + re.escape(pn) + r"\b", "$%d" % i, e)
+        for i, ln in enumerate(lnames):      # locals by order of definition: renaming a local changes nothing
+            e = re.sub(r"%" + re.escape(ln) + r"\b", "%%L%d" % i, e)
+        return e
+    out = []
+    for f in r["facts"]:
+        if f["k"] not in ("local", "assign", "return"):
+            continue
+        gs = sorted(set("%s%s" % ("" if g["pol"] == 1 else "!", canon(g["cond"])) for g in expand_guards(f.get("g", []))))
+        gtxt = (" @ " + " & ".join(gs)) if gs else ""
+        if f["k"] == "local":
+            out.append("let %s = %s" % (canon("%" + f["a"]), canon(f["b"])))
+        elif f["k"] == "assign":
+            out.append("%s %s %s%s" % (canon(f["a"]), f["c"] or "=", canon(f["b"]), gtxt))
+        else:
+            out.append("return %s%s" % (canon(f["a"]), gtxt))
+    return out
+
+
+def rule_ufop_guarded(rows, prop):
+    """multi-statement scalar ops: compare the guarded effect list of the instantiated call operator / eval helper with the oracle"""
+    tbl = load_table("ufunc_table.json")["guarded_ops"]
+    findings, samples, seen = [], [], set()
+    for r in rows:
+        if "fn" not in r or not r.get("cfg") or not (r["fn"].endswith("operator()") or r["fn"].endswith("::eval")):
+            continue
+        name = op_name_of(r["fn"])
+        if not name:
+            continue
+        key = name + ("::eval" if r["fn"].endswith("::eval") else "")
+        if key in seen:
+            continue
+        seen.add(key)
+        eff = guarded_effects(r)
+        if key not in tbl:
+            findings.append(finding("R-UFOP.guarded", prop, r, key, "multi-statement op '%s' has no entry in the guarded-effects oracle (tools/ufunc_table.json)" % key)); continue
+        if eff != tbl[key]["effects"]:
+            diff = [e for e in eff if e not in tbl[key]["effects"]] or eff
+            findings.append(finding("R-UFOP.guarded", prop, r, "; ".join(diff)[:300], "piecewise definition of '%s' is %s; the reviewed definition is %s" % (key, eff, tbl[key]["effects"])))
+        if len(samples) < 3:
+            samples.append("R-UFOP.guarded %s: %s" % (key, "; ".join(eff)[:200]))
+    missing = [k for k in tbl if k not in seen]
+    broken = ["R-UFOP.guarded: oracle entries not instantiated by drivers/ufunc_inst.cpp: %s" % missing] if missing else []
+    return findings, len(seen), samples, broken
+
+
 def rule_ufapply(rows, prop):
     """R-UFAPPLY: the ufunc views apply op to the operands in tuple order, one element each."""
     findings, n, samples = [], 0, []
@@ -496,7 +554,13 @@ def comp_ufunc(prop, tier, comp, work):
         out["broken"].append(err2); return out
     f3, n3, s3 = rule_ufapply(rows2, prop)
     out["functions"] += len(rows2)
-    out.update(findings=f1 + f2 + f3, instances={"R-UFOP": n1, "R-UFWD": n2, "R-UFAPPLY": n3}, evaluations=n1 + n2 + n3, distinct_nontrivial=n1 + n2 + n3 - len(f1 + f2 + f3), samples=s1 + s2 + s3[:2], wall_s=round(time.time() - t0, 2))
+    rows3, err3, _ = run_nmlint(os.path.join(VERIF, "drivers", "ufunc_inst.cpp"), filters=["/view/activations/", "/view/ufuncs/clip"], inst=True, cfg=True)
+    if err3:
+        out["broken"].append(err3); return out
+    f4, n4, s4, b4 = rule_ufop_guarded(rows3, prop)
+    out["broken"] += b4; out["functions"] += len(rows3)
+    f3 = f3 + f4; s3 = s3[:2] + s4
+    out.update(findings=f1 + f2 + f3, instances={"R-UFOP": n1, "R-UFWD": n2, "R-UFAPPLY": n3, "R-UFOP.guarded": n4}, evaluations=n1 + n2 + n3 + n4, distinct_nontrivial=n1 + n2 + n3 + n4 - len(f1 + f2 + f3), samples=s1 + s2 + s3, wall_s=round(time.time() - t0, 2))
     return out
 
 
